@@ -19,6 +19,8 @@ def nodupInts : List Int → Bool
   processes with GOMAXPROCS 1 and 16) → `same` / `differ`;
 * `hist <grammar B> <grammar A> <digest of B in a fresh process> <digest of B generated after A in one process>`
   → `same` / `history`;
+* `cli <scenario> <digest of the reused directory> <digest of the empty directory>` (real command-line writer,
+  revision 2 generated over the files of revision 1 vs into an empty directory) → `same` / `stale`;
 * `cwd <grammar> <digest> <digest>` (the same relative path and content generated from two working directories)
   → `same` / `cwd`;
 * `shipped <grammar> <files> <differing>` (regeneration of a shipped grammar vs the committed files) →
@@ -30,6 +32,7 @@ def eval : List String → Option String
   | ["site", file, func, hash, ctx] =>
     some (if (lookupSite file func hash ctx).isSome then "covered" else "uncovered")
   | "gen" :: _ :: hashes => some (if allSame hashes then "same" else "differ")
+  | ["cli", _, d1, d2] => some (if d1 == d2 then "same" else "stale")
   | ["cwd", _, d1, d2] => some (if d1 == d2 then "same" else "cwd")
   | ["hist", _, _, fresh, after] => some (if fresh == after then "same" else "history")
   | ["shipped", _, _, ndiff] => do
@@ -52,6 +55,7 @@ def handle (args : List String) : Option String :=
   | "judge" :: _ :: "::" :: rest =>
     match eval rest with
     | some "differ" => some "violates: the generated files differ between runs of the same grammar"
+    | some "stale" => some "violates: the files on disk after `textmapper generate` depend on what an earlier generation left there"
     | some "cwd" => some "violates: the files of a grammar depend on the working directory of the process"
     | some "history" => some "violates: the files of a grammar depend on what was generated earlier in the same process"
     | some "mismatch" => some "violates: regenerating the shipped grammar does not reproduce the committed files"
